@@ -248,6 +248,49 @@ def run_twin(ctx, spec, c):
         ctx.count("twin_fold_raised")
 
 
+SUBCALL_SRC = MOVE_HDR + '''from harness.props import c05 as _C05
+
+@tweezer
+def hopk(g: grid.Grid[Any, Any], n: int):
+    action.set_loc(g)
+    action.move(grid.shift(g, 1.0 * n, 0.5))
+
+@move
+def inner(n: int):
+    d = schedule.device_fn(hopk, ilist.IList([0, 1]), ilist.IList([0]))
+    d(grid.from_positions([0.0, 2.0], [1.0]), n)
+    r = schedule.reverse(d)
+    r(grid.from_positions([0.0, 2.0], [1.0]), n=n)
+
+@move
+def plain_sub(n: int):
+    inner(n)
+
+@move(arch_spec=_C05.SPEC_SLOT)
+def compiled_sub(n: int):
+    inner(n)
+'''
+SPEC_SLOT = None
+
+
+def subcall_stream(ctx, spec):
+    """device calls that sit in an invoked subroutine of a kernel compiled with the spec, in a call graph without any spec
+    lookup: the plain interpreter must find the spec recorded on them"""
+    global SPEC_SLOT
+    SPEC_SLOT = spec
+    mod = T.load_source(SUBCALL_SRC, "c05s")
+    for n in (0, 2):
+        a = EV.run_with_events(mod.plain_sub, spec, (n,))
+        b = EV.run_with_events(mod.compiled_sub, spec, (n,), plain=True)
+        ra = "err" if a.error else EV.canon_events(a.events)
+        rb = "err" if b.error else EV.canon_events(b.events)
+        ctx.count("subcall_runs")
+        if ra != rb:
+            ctx.fail({"source": SUBCALL_SRC[len(MOVE_HDR):], "args": [n]},
+                     f"device calls in an invoked subroutine: the kernel compiled with the spec, run by the plain interpreter, gives "
+                     f"{rb[:200]}; the spec-carrying interpreter on the unspecialised kernel gives {ra[:200]}")
+
+
 def second_spec():
     """same zone names as the default spec, different geometry: a route that remembers a
     path across specs (a cache keyed without the spec) shows up as a disagreement"""
@@ -275,6 +318,7 @@ def run(ctx):
             # the same program, same arguments, under a second spec in the same process
             ctx.count("second_spec_runs")
             run_case(ctx, spec2, traps2, c, out, other_spec=spec)
+    subcall_stream(ctx, spec)
     if ctx.counts.get("compile_fail", 0) > 0.3 * n:
         raise HarnessFault("generator degenerate: >30% of generated programs do not compile")
     keys = ["spec", "main", "main_nospec", "constprop", "constprop_nospec"]
